@@ -22,10 +22,11 @@ const (
 	FamWide
 	FamHugeString
 	FamKeyed
+	FamDedup
 	famCount
 )
 
-var famNames = [...]string{"mixed", "dense-arrays", "dense-objects", "zeros", "strings", "numbers", "deep", "wide", "huge-string", "keyed"}
+var famNames = [...]string{"mixed", "dense-arrays", "dense-objects", "zeros", "strings", "numbers", "deep", "wide", "huge-string", "keyed", "dedup-stress"}
 
 // siteKind classifies recorded token positions (targets for defects / faults).
 type siteKind uint8
@@ -410,6 +411,16 @@ func GenDoc(c *Chooser, spec DocSpec) Doc {
 			if i > 0 {
 				g.b.WriteByte(',')
 			}
+			if g.ws > 0 && c.Intn("dsprinkle", 40) == 0 {
+				// almost (not fully) dense: a few non-structural bytes
+				switch k := c.Intn("dsp", 7); k {
+				case 0, 1, 2:
+					g.b.WriteString([]string{" ", "  ", "\n"}[k])
+				default:
+					g.b.WriteString([]string{"\"\"", "\"x\"", "12", "null"}[k-3])
+					g.b.WriteByte(',')
+				}
+			}
 			switch c.Intn("dk", 4) {
 			case 0:
 				g.b.WriteString("[]")
@@ -506,6 +517,27 @@ func GenDoc(c *Chooser, spec DocSpec) Doc {
 		g.b.WriteString(`["x",`)
 		g.strN(spec.Target)
 		g.b.WriteString(`,1]`)
+	case FamDedup:
+		// strings that are runs of one character in many different lengths (plus repeats): every window of the
+		// serializer's dedup buffer looks alike, so colliding hash buckets and stale buffer content matter
+		g.b.WriteByte('[')
+		n := 2
+		for n*n/2 < spec.Target {
+			n++
+		}
+		ch := byte('a' + c.Intn("dch", 3))
+		for i := 0; i < n; i++ {
+			if i > 0 {
+				g.b.WriteByte(',')
+			}
+			l := 1 + c.Intn("dlen", n)
+			g.b.WriteByte('"')
+			for k := 0; k < l; k++ {
+				g.b.WriteByte(ch)
+			}
+			g.b.WriteByte('"')
+		}
+		g.b.WriteByte(']')
 	case FamKeyed:
 		// objects with unique keys k0..kn and mixed values (for deletion / lookup workloads)
 		g.b.WriteByte('{')
